@@ -11,7 +11,7 @@
 struct gr_ghost { int init_calls; size_t init_num; econf_file *init_kf; };
 extern struct gr_ghost gr;
 
-#ifdef PART_NEWKF
+#if defined(PART_NEWKF) || defined(PART_NEWINI)
 /* econf_newKeyFile (lib/libeconf.c): the constructor with pre-initialised slots.  initialize() is
  * replaced by a logging contract that REQUIRES the slots to be initialised in ascending order, each
  * inside the array just allocated (its own effect: job initialize). */
@@ -45,6 +45,21 @@ __CPROVER_ensures(__CPROVER_return_value == ECONF_SUCCESS ==>
 __CPROVER_ensures(__CPROVER_return_value == ECONF_SUCCESS ==>
                   __CPROVER_is_fresh((*result)->file_entry, KEY_FILE_DEFAULT_LENGTH * sizeof(struct file_entry)))
 ;
+#ifdef PART_NEWINI
+/* econf_newIniFile = econf_newKeyFile(result, '=', '#') (the callee REPLACED by its proved contract) */
+econf_err econf_newIniFile(econf_file **result)
+__CPROVER_requires(__CPROVER_is_fresh(result, sizeof(*result)))
+__CPROVER_requires(gr.init_calls == 0)
+__CPROVER_assigns(*result, gr)
+__CPROVER_ensures(__CPROVER_return_value == ECONF_SUCCESS || __CPROVER_return_value == ECONF_NOMEM)
+__CPROVER_ensures(__CPROVER_return_value == ECONF_SUCCESS ==>
+                  ((*result)->length == 0 && (*result)->alloc_length == KEY_FILE_DEFAULT_LENGTH &&
+                   (*result)->delimiter == '=' && (*result)->comment == '#' &&
+                   !(*result)->join_same_entries && !(*result)->python_style &&
+                   (*result)->parse_dirs_count == 0 && (*result)->conf_count == 0 && (*result)->group_count == 0 &&
+                   (*result)->path == NULL && gr.init_calls == KEY_FILE_DEFAULT_LENGTH && gr.init_kf == *result))
+;
+#endif
 #endif
 
 #ifdef PART_APPEND
